@@ -61,6 +61,7 @@ type ChainOpts struct {
 	UnbondingTime time.Duration
 	GenesisTime   time.Time
 	RegisterOnlyFirst bool
+	VoteExtEnable     int64 // consensus param Abci.VoteExtensionsEnableHeight (0 = not set)
 	RegisterEVM   bool // register an EVM address for every validator at genesis+ (assumption A-1)
 	GenesisHook   func(gs map[string]json.RawMessage, c *Chain)
 	HomeDir       string
@@ -197,6 +198,11 @@ func NewChain(o ChainOpts) (*Chain, error) {
 		cmtVals = append(cmtVals, abci.ValidatorUpdate{PubKey: pk, Power: v.Tokens.Quo(sdk.DefaultPowerReduction).Int64()})
 	}
 	cp := simtestutil.DefaultConsensusParams
+	if o.VoteExtEnable > 0 {
+		cpc := *cp
+		cpc.Abci = &cmtproto.ABCIParams{VoteExtensionsEnableHeight: o.VoteExtEnable}
+		cp = &cpc
+	}
 	if _, err := a.InitChain(&abci.RequestInitChain{
 		ChainId: "layer", Time: o.GenesisTime, Validators: cmtVals, ConsensusParams: cp, AppStateBytes: stateBytes, InitialHeight: 1,
 	}); err != nil {
